@@ -793,7 +793,7 @@ class Facts:
 
     def crate(self, name):
         if name not in self._crates:
-            if name not in factsmod.EXPECTED:
+            if name not in factsmod.expected(self.config):
                 raise AnchorMissing(f"crate {name} is not in the analysed set")
             raw, headers, blob = factsmod.load_crate(self.config, name)
             bodies = [Body(h, name, blob) for h in headers]
@@ -821,7 +821,7 @@ class Facts:
         out = []
         for m in re.finditer(r"(?:^|[<&\s])([a-z_][a-z0-9_]*)::", q):
             c = m.group(1)
-            if c in factsmod.EXPECTED and c not in out:
+            if c in factsmod.expected(self.config) and c not in out:
                 out.append(c)
         return out
 
@@ -863,7 +863,7 @@ class Facts:
         """ADT description (variants, fields). Enums of external crates are described in the
         facts of the workspace crates that match on them (`ext_adts`)."""
         cn = self.crate_of(q)
-        if cn in factsmod.EXPECTED:
+        if cn in factsmod.expected(self.config):
             a = self.crate(cn)["adts"].get(q)
             if a is not None:
                 return a
